@@ -50,4 +50,28 @@ theorem DocRes.denotes {cfg lang r bs d st} (h : DocRes cfg lang r bs d st) (hl 
     simp only [evPis, List.nil_append, List.flatMap_cons, List.flatMap_append, List.flatMap_nil, toks,
       List.append_nil, hv]
 
+
+/-- The source view depends on the options only through the language and the white-space policy. -/
+theorem srcToks_congr (c c' : WCfg) (hl : c.lang = c'.lang) (hi : c.ignoreEmpty = c'.ignoreEmpty)
+    (hr : c.removeBlanks = c'.removeBlanks) :
+    (∀ n, srcToks c n = srcToks c' n) ∧ (∀ l, srcToksL c l = srcToksL c' l) := by
+  apply srcToks.mutual_induct (motive_1 := fun n => srcToks c n = srcToks c' n)
+    (motive_2 := fun l => srcToksL c l = srcToksL c' l)
+  · intro name attrs kids ih
+    rw [srcToks, srcToks, ih]
+    simp only [srcAttrsView, hl]
+  · intro s
+    rw [srcToks, srcToks]
+    simp only [normText, hl, hi, hr]
+  · intro kids; rw [srcToks, srcToks]
+  · intro l cs r; rw [srcToks, srcToks]
+  · rw [srcToksL, srcToksL]
+  · intro n r h1 h2; rw [srcToksL, srcToksL, h1, h2]
+
+theorem dcfgOf_view_fields (cfg : X2WCfg) (lang : Lang) :
+    (dcfgOf cfg lang).ignoreEmpty = !cfg.keepWs ∧ (dcfgOf cfg lang).removeBlanks = !cfg.keepWs := by
+  unfold dcfgOf
+  rw [deriveCfg_ignoreEmpty, deriveCfg_removeBlanks]
+  exact ⟨rfl, rfl⟩
+
 end Wbxml.Lemmas.EncW
